@@ -5,10 +5,14 @@ from hypothesis import strategies as st
 
 from ..common import Sub
 from ..e1 import engine, gen, reduce
+from .. import sink
+from .c08 import CANARY as NEXT
 
 RULE = ("tie-free generated programs (synchronous re-entry incl. the re-entry comb, failures, several batch kinds, contexts); every program is run under the "
         "default options and then under EACH single boolean option, under all-on, and under two generated subsets, with SCHEDULER_STATE_DUMP_INTERVAL=0 so "
         "that dump paths execute, and with a harness clock whose per-reading increment is drawn from {1, 1e3, 1e6, 3e9, 1e11} microseconds; "
+        "each run is followed, on the same scheduler and under the same options, by a fixed second computation and by a call whose argument cannot be "
+        "rendered (repr raises RecursionError); one case in two lowers MAX_TASK_STACK_SIZE so that the runaway-recursion guard may stop the program; "
         "non-trivial = the program has >= 1 flush (every case runs >= 22 option configurations); distinct = distinct case JSON")
 ASSUMPTIONS = ["traces are compared across runs, so programs are tie-free (distinct constant priority per batch kind, one DebugBatch name): the trace is a function of the program",
                "diagnostic output goes to a sink and is only required to be produced without raising"]
@@ -29,7 +33,8 @@ def strategy(tier):
                   shapes=("reentry", "reentry", "reentry", "tree", "comb", "chain", "diamond", "stagger", "free"))
     subset = st.lists(st.sampled_from(BOOL_OPTIONS), min_size=2, max_size=6, unique=True)
     return st.fixed_dictionaries({"prog": gen.programs(cfg), "subsets": st.lists(subset, min_size=2, max_size=2),
-                                  "inc": st.sampled_from(INCS), "pairs": st.just(tier == "thorough")})
+                                  "inc": st.sampled_from(INCS), "pairs": st.just(tier == "thorough"),
+                                  "stack_limit": st.sampled_from([None, None, None, 2, 4, 7])})
 
 
 def configs(case):
@@ -45,22 +50,64 @@ def configs(case):
     return out
 
 
-def run(prog, names, inc):
+_DEEP = {}
+
+
+def deep_argument_call():
+    """an @asynq() function called with an argument that cannot be rendered (repr() of a list nested 100 000 deep raises
+    RecursionError): diagnostics and profiling must cope, the result is the same under every option"""
+    from asynq import asynq as A
+    from asynq.batching import DebugBatchItem
+    if not _DEEP:
+        deep = cur = []
+        for _ in range(100000):
+            nxt = []
+            cur.append(nxt)
+            cur = nxt
+
+        @A()
+        def walk(x, tag=None):
+            v = yield DebugBatchItem("c20deep", 1)
+            n = 0
+            while x:
+                x = x[0]
+                n += 1
+            return [n, v, tag is x]
+        _DEEP.update(deep=deep, walk=walk)
+    try:
+        with sink.capture_print():
+            return ["ok", _DEEP["walk"](_DEEP["deep"], tag=_DEEP["deep"])]
+    except BaseException as e:
+        return ["exc", type(e).__name__, str(e)[:120]]
+
+
+def run(prog, names, inc, limit=None):
+    """the program, then -- on the same scheduler, under the same options -- a fixed second computation and a call with an
+    unprintable argument; returns (env, comparable trace of all three)"""
     opts = dict((o, FLIP[o]) for o in names)
     opts["SCHEDULER_STATE_DUMP_INTERVAL"] = 0
+    if limit is not None:
+        opts["MAX_TASK_STACK_SIZE"] = limit
     env = engine.run_program(copy.deepcopy(prog), options=opts, clock=engine.FakeClock(inc))
-    return env
+    t = engine.trace(env)
+    import asynq.debug as D
+    D.options.MAX_TASK_STACK_SIZE = engine._OPTION_DEFAULTS["MAX_TASK_STACK_SIZE"]
+    nxt = engine.run_program(copy.deepcopy(NEXT), reset=False, clock=engine.FakeClock(inc))
+    tn = engine.trace(nxt)
+    tn["flushes-of-the-earlier-computation"] = sum(1 for e in nxt.events if e[0] == "before" and e[1] == "foreign")
+    t["next-computation"] = tn
+    t["unprintable-argument-call"] = deep_argument_call()
+    return env, t
 
 
 def check(case, ctx):
     prog = case["prog"]
-    base = engine.run_program(copy.deepcopy(prog), clock=engine.FakeClock(case["inc"]))
-    t0 = engine.trace(base)
+    limit = case.get("stack_limit")
+    base, t0 = run(prog, [], case["inc"], limit)
     viol = []
     maxtime = 0
     for names in configs(case):
-        env = run(prog, names, case["inc"])
-        t = engine.trace(env)
+        env, t = run(prog, names, case["inc"], limit)
         maxtime = max(maxtime, env_clock_total(env))
         if t != t0:
             diff = [k for k in t0 if t0[k] != t[k]]
@@ -74,6 +121,8 @@ def check(case, ctx):
     ctx.label("out-of-band-item.value()", base.ndirect > 0)
     ctx.label("clock>=2^31us-total", case["inc"] >= 3 * 10 ** 9)
     ctx.label("outcome=" + base.outcome[0])
+    ctx.label("stopped-by-the-task-stack-limit", limit is not None and base.outcome[:2] == ["escaped", "RuntimeError"])
+    ctx.label("next-computation-sees-leftover-requests", t0["next-computation"]["flushes-of-the-earlier-computation"] > 0)
     ctx.label("shape=" + prog.get("shape", "?"))
     ctx.nontrivial(case, len(base.flushes) >= 1)
     return viol
@@ -92,6 +141,8 @@ def reduce_case(case):
         c = dict(case)
         c["subsets"] = [["DUMP_SYNC", "DUMP_CONTEXTS"]] * 2
         yield c
+    if case.get("stack_limit") is not None:
+        yield dict(case, stack_limit=None)
     i = INCS.index(case["inc"])
     if i > 0:
         c = dict(case)
